@@ -55,6 +55,11 @@ func commitWindowExps() []cwExp {
 			cwExp{v, "want", []string{"EVICT", "WF2b", "EVICT"}, []string{"RF"}, false, true},
 		)
 	}
+	// LOOKUP of ".." gives up the directory's lock to take both locks in order: the directory is removed and pushed out of
+	// the inode cache before the victim gets its second lock; the removed directory's handle must be dead afterwards
+	for _, in := range [][]string{{"RMDIRE", "EVICT"}, {"EVICT", "RMDIRE", "EVICT"}, {"RMDIRE"}} {
+		out = append(out, cwExp{"LOOKUPE", "want2", in, []string{"GETATTRE", "LOOKUPE2"}, false, true})
+	}
 	// full disk: the victim frees blocks, the intruder needs blocks while the victim is inside its commit
 	for _, v := range []string{"REMOVEB", "TRUNCB", "RENOVB"} {
 		for _, h := range []string{"precommit", "committed"} {
@@ -100,8 +105,13 @@ func runCommitWindow(k int, e cwExp, t *Trace, seg int) int {
 	var fired int32
 	inWin := make(chan struct{}, 1)
 	resume := make(chan struct{})
+	holdEv, holdN := e.hold, int32(1)
+	if e.hold == "want2" { // the victim's second lock request: it has looked something up under its first lock already
+		holdEv, holdN = "want", 2
+	}
+	var nhold int32
 	Mon.Yield = func(ev string) {
-		if ev == e.hold && goid() == atomic.LoadInt64(&victimG) && atomic.CompareAndSwapInt32(&fired, 0, 1) {
+		if ev == holdEv && goid() == atomic.LoadInt64(&victimG) && atomic.AddInt32(&nhold, 1) == holdN && atomic.CompareAndSwapInt32(&fired, 0, 1) {
 			inWin <- struct{}{}
 			select {
 			case <-resume:
@@ -164,7 +174,9 @@ func runCommitWindow(k int, e cwExp, t *Trace, seg int) int {
 	wr(0, fhF, 0, 3000, 40, 2)
 	wr(0, fhF, 3000, 3000, 41, 0) // an unstable write is outstanding when the victim starts
 	var manyFhs []string
+	fhE := ""
 	if e.many {
+		fhE = mk(0, "MKDIR", root, "e").RFh
 		for i := 0; i < 130; i++ {
 			manyFhs = append(manyFhs, mk(0, "CREATE", dd, fmt.Sprintf("m%d", i)).RFh)
 		}
@@ -204,6 +216,9 @@ func runCommitWindow(k int, e cwExp, t *Trace, seg int) int {
 	case "SETATTRF":
 		v = NewCall("SETATTR")
 		v.Fh, v.SetSize, v.Size = fhF, true, 1000
+	case "LOOKUPE":
+		v = NewCall("LOOKUP")
+		v.Fh, v.Name, v.NLen = fhE, "..", 2
 	case "REMOVEB":
 		v = NewCall("REMOVE")
 		v.Fh, v.Name, v.NLen = root, "b", 1
@@ -252,6 +267,16 @@ func runCommitWindow(k int, e cwExp, t *Trace, seg int) int {
 			commit(cl, fhF)
 		case "CREATEK":
 			mk(cl, "CREATE", dd, "k2")
+		case "RMDIRE":
+			mk(cl, "RMDIR", root, "e")
+		case "GETATTRE":
+			c := NewCall("GETATTR")
+			c.Fh = fhE
+			do(cl, c)
+		case "LOOKUPE2":
+			c := NewCall("LOOKUP")
+			c.Fh, c.Name = fhE, "."
+			do(cl, c)
 		case "EVICT":
 			for _, h := range manyFhs {
 				c := NewCall("GETATTR")
